@@ -106,12 +106,63 @@ class Obj:
         self.cls, self.vars = cls, vars
 
 
+class MapRef:
+    """a map with CONCRETE keys (python ints / ("str", s)) and arbitrary values; shared by reference"""
+    __slots__ = ("items",)
+
+    def __init__(self, items):
+        self.items = items
+
+
+class MapPtr:
+    """HeapPrimitive::MapPtr - a (map, key) slot; reading a missing key yields nil, writing inserts"""
+    __slots__ = ("map", "key")
+
+    def __init__(self, m, key):
+        self.map, self.key = m, key
+
+
+def map_key(k):
+    if isinstance(k, bool) or is_sym(k):
+        raise Unsupported("map key that is not a concrete int / str")
+    if isinstance(k, int) or (isinstance(k, tuple) and k[0] == "str"):
+        return k
+    raise Unsupported("map key kind")
+
+
+def map_builtin(o, name, recv, args):
+    """shared semantics of the map built-ins (contents of a finite map; iteration order is unspecified and never observed)"""
+    if not isinstance(recv, MapRef):
+        raise Unsupported("map built-in on a non-map")
+    items = recv.items
+    if name == "len":
+        return len(items)
+    if name == "contains_key":
+        return map_key(args[0]) in items
+    if name == "remove":
+        return items.pop(map_key(args[0]), NIL)
+    if name == "replace":
+        k = map_key(args[0])
+        old = items.get(k, NIL)
+        items[k] = args[1]
+        return old
+    if name == "clear":
+        items.clear()
+        return None
+    if name == "clone":
+        return MapRef(dict(items))
+    raise Unsupported("map built-in " + name)
+
+
+MAP_BUILTINS = ("len", "contains_key", "remove", "replace", "clear", "clone")
+
+
 class BuiltIn:
     """a list built-in bound by `lookup` (the receiver arrives as first argument through ld_self)"""
-    __slots__ = ("name",)
+    __slots__ = ("name", "on")
 
-    def __init__(self, name):
-        self.name = name
+    def __init__(self, name, on="list"):
+        self.name, self.on = name, on
 
 
 def list_builtin(o, name, recv, args):
@@ -444,6 +495,10 @@ def freeze(v):
         return freeze(v.lst.items[v.idx])
     if isinstance(v, CellPtr):
         return freeze(v.cell.v)
+    if isinstance(v, MapPtr):
+        return freeze(v.map.items.get(v.key, NIL))
+    if isinstance(v, MapRef):
+        raise Unsupported("printing a whole map (iteration order is unspecified)")
     if isinstance(v, Obj):
         return ("fn", "<object %s>" % v.cls)
     if isinstance(v, ListRef):
